@@ -43,6 +43,9 @@ def probes(work, stats):
     return lines
 
 
+IDENT_OK = re.compile(r"^[a-z_][a-z0-9_]*[?!]?$")
+
+
 def stress_programs(rng, tier):
     """Programs that drive every understood method of the shipped configuration through the call paths that hand
     out (parts of) the configured method types: union receivers, safe navigation, assignment to a call's result,
@@ -68,6 +71,33 @@ def stress_programs(rng, tier):
         for a in bad:
             g += ["vfr = %s" % S.RECV[cls], S.call_src("vfr", name, a)]
         groups.append(("stress:%s#%s" % (cls, name), g))
+    # user classes that include / extend a configured module and call its methods with implicit self, in both orders
+    # (a lookup through an include or extend edge must mark a COPY of the configured method type)
+    import json as _json
+    import os as _os
+    modules = {}
+    for f in sorted(_os.listdir(C.SHIPPED_CFG)):
+        try:
+            d = _json.load(open(_os.path.join(C.SHIPPED_CFG, f)))
+        except Exception:
+            continue
+        for e in d.get("extends") or []:
+            if "::" not in e and e[:1].isupper():
+                modules.setdefault(e, None)
+    for f in sorted(_os.listdir(C.SHIPPED_CFG)):
+        try:
+            d = _json.load(open(_os.path.join(C.SHIPPED_CFG, f)))
+        except Exception:
+            continue
+        if d.get("class") in modules and d.get("frame") == "Builtin" and modules[d["class"]] is None:
+            modules[d["class"]] = [m["name"] for m in d.get("instance_methods") or [] if IDENT_OK.match(m["name"])]
+    for mod, meths in sorted(modules.items()):
+        for name in (meths or [])[:12]:
+            inc = ["class VfBag%s" % name.title().replace("_", ""), "  include %s" % mod, "  def vf_use", "    vfq = %s { |vfx| 1 }" % name, "    vfq", "  end", "end"]
+            ext = ["class VfShelf%s" % name.title().replace("_", ""), "  extend %s" % mod, "  def self.vf_use", "    vfq = %s { |vfx| 1 }" % name, "    vfq", "  end", "end"]
+            groups.append(("stress:include-then-extend:%s#%s" % (mod, name), inc + ext))
+            groups.append(("stress:extend-then-include:%s#%s" % (mod, name),
+                           [l.replace("VfShelf", "VfRack").replace("VfBag", "VfSack") for l in ext + inc]))
     if tier == "quick":
         rng.shuffle(groups)
     progs = []
